@@ -225,7 +225,7 @@ def lin_state(d: MailDriver):
     return out
 
 
-async def run_windows(d: MailDriver, rng, sessions, nwin, stats, pop3=False):
+async def run_windows(d: MailDriver, rng, sessions, nwin, stats, pop3=False, deliveries=None):
     w = d.w
     await w.open("Z")
     await w.cmd("Z", "CREATE b")
@@ -248,6 +248,9 @@ async def run_windows(d: MailDriver, rng, sessions, nwin, stats, pop3=False):
         # quiesce: everybody synchronises so that the window starts from a settled state
         for s in sessions:
             await w.cmd(s, "NOOP")
+        if windows and windows[-1].get("delivered"):
+            # a sync point of every session has passed since the external delivery of the last window
+            windows[-1]["settled"] = lin_state(d)
         if rng.random() < 0.3:
             s = rng.choice(sessions)
             sel[s] = rng.choice(["inbox", "b"])
@@ -316,7 +319,19 @@ async def run_windows(d: MailDriver, rng, sessions, nwin, stats, pop3=False):
             finally:
                 w.sessions[c["sess"]].stall = 0
 
-        results = await asyncio.gather(*[issue(c, t) for c, t in zip(cmds, tags)])
+        delivered = []
+
+        async def agent():
+            # an external MH agent delivers into a selected mailbox while the window's commands run
+            # (own random stream: the windows themselves are the same with and without deliveries)
+            await asyncio.sleep(deliveries.choice([0.0, 0.001, 0.02, 0.02, 0.1]))
+            m = deliveries.choice(sorted(set(sel.values())))
+            # (was the management task in the middle of a resync of that very folder? -> known finding C13)
+            during = bool(getattr(d, "_resync_mb", {}).get(m))
+            keys, ids = w.deliver(m, n=deliveries.choice([1, 1, 2]), unseen=deliveries.random() < 0.6, adv=True)
+            delivered.extend([m, k, during] for k in keys)
+        with_agent = deliveries is not None and deliveries.random() < 0.5
+        results = (await asyncio.gather(*([issue(c, t) for c, t in zip(cmds, tags)] + ([agent()] if with_agent else []))))[:len(cmds)]
         d.slow.clear()
         await w.advance(0.05)
         final = lin_state(d)
@@ -366,13 +381,17 @@ async def run_windows(d: MailDriver, rng, sessions, nwin, stats, pop3=False):
             c2.pop("delay", None)
             c2.pop("slow", None)
             c2.pop("stall", None)
-        windows.append({"init": init, "cmds": rec, "final": final, "nsess": len(sessions),
+        windows.append({"init": init, "cmds": rec, "final": final, "nsess": len(sessions), "delivered": delivered,
                         "admits": [a for a in d.admits if a["tag"] in tags]})
         # track what the sessions have selected (BYE/close would show in ss)
+    if windows and windows[-1].get("delivered"):
+        for s in sessions:
+            await w.cmd(s, "NOOP")
+        windows[-1]["settled"] = lin_state(d)
     return windows
 
 
-def execute(seed, nwin=6, sessions=("A", "B", "C"), p_fifo=0.6, pop3=False):
+def execute(seed, nwin=6, sessions=("A", "B", "C"), p_fifo=0.6, pop3=False, deliveries=False):
     rng = random.Random(seed)
     chooser = simloop.RandomChooser(seed * 7919 + 13, p_fifo=p_fifo)
     w = World(seed=seed)
@@ -450,7 +469,8 @@ def execute(seed, nwin=6, sessions=("A", "B", "C"), p_fifo=0.6, pop3=False):
         _mb.Mailbox.append = slow_append
         d._orig_append = orig_append
         try:
-            return await run_windows(d, rng, list(sessions), nwin, stats, pop3=pop3)
+            return await run_windows(d, rng, list(sessions), nwin, stats, pop3=pop3,
+                                     deliveries=random.Random(seed * 13 + 5) if deliveries else None)
         finally:
             schedsteps.ACTIVE[0] = None
             _mb.Mailbox.append = d._orig_append
